@@ -253,3 +253,24 @@ MANIFEST_TEXT["C17"] = {
     "technique": "runtime monitoring: fault injection at each SAT-call position, external-solver failure kinds",
 }
 NOT_APPLICABLE[:] = [e for e in NOT_APPLICABLE if e["property_id"] not in ("C15", "C16", "C17")]
+
+PROPS["C10"] = {
+    "level": "translation_validation",
+    "rule": "programs = the CNFs actually emitted by each encoder (aux_var cf/adm/complete, exp cf/complete, hybrid, stable; plain and with range variables) into a recording SatSolver, for frameworks with compact ids built through both readers (incl. permuted and repeated attack lines), new_with_labels and the plain API: all digraphs on <= 3 (thorough: 4) arguments, random graphs n <= 9, lattice/dense shapes, shared-defender shapes with defender-set products 30/32/33/36/64 (both sides of the hybrid threshold, n <= 16). Each CNF is validated exhaustively: for EVERY subset S of the arguments, CNF + (argument literals fixed to S) is satisfiable (independent DPLL) iff S is in the intended family (brute-force oracle); with range: a model with r = range(S) exists and no model has r_a true outside range(S); arg_to_lit positive, injective, within n_vars, outside the range block; assignment_to_extension decodes exactly S and ignores auxiliary/range variables. Non-trivial: the family differs from the power set and from {empty set}; distinct = hash of (graph, presentation kind, encoder).",
+    "assumptions": ["the harness DPLL decides each restricted CNF (cross-checked with a truth table in its unit test)", "brute-force families (conflict-free, admissible, complete, stable) of harness/src/refsem.rs", "compact-id frameworks from the readers stand in for the solvers' crate-private component extraction (same construction: ids 0..n, attacks inserted by id, duplicates kept); CNFs of real extracted components are additionally validated model-by-model by the SAT-boundary monitor in C01-C04"],
+    "coverage_extra": lambda a: {"programs": a["counters"].get("cnfs_validated", 0),
+                                 "disagreements_checked": a["evaluations"],
+                                 "exhaustive": False},
+    "thresholds": {
+        "quick": {"evaluations": 1000000, "distinct_nontrivial": 20000,
+                  "counters": {"cnfs_validated": 50000, "hybrid/arguments-on-both-sides-of-threshold": 500,
+                               "cnfs/hybrid+range": 3000, "cnfs/exp-co+range": 3000, "cnfs/stable": 3000}},
+        "thorough": {"evaluations": 50000000, "distinct_nontrivial": 500000, "counters": {}},
+    },
+}
+MANIFEST_TEXT["C10"] = {
+    "level_text": "Translation validation of the encoder output: each emitted CNF (the 'program') is captured through the public ConstraintsEncoder/SatSolver traits and compared, subset by subset and exhaustively per CNF, with the family it is meant to characterise; model-set growth (a dropped direction of an equivalence), which end-to-end queries cannot see, is detected here.",
+    "design_ref": "DESIGN.md section 5, C10", "level_note": "Trusted: harness DPLL and brute-force families. Exhaustive per CNF, sampled over frameworks (exhaustive for all digraphs on <= 3/4 arguments).",
+    "technique": "runtime monitoring of the encoder's real output: captured CNF validated against reference families by exhaustive restricted satisfiability",
+}
+NOT_APPLICABLE[:] = [e for e in NOT_APPLICABLE if e["property_id"] not in ("C10",)]
